@@ -22,6 +22,7 @@ DEFAULTS = {
     "tSchool": 32, "halfMul": 2, "tKara": 256, "halfDen": 2, "karaDen": 2,
     "toomDen": 3, "toomAdd": 1, "karaSlack": 1, "mulSlack": 1,
     "bigBase": 64, "window": 4,
+    "randDiv": 32, "randShift": 32, "randNative": 64,
 }
 
 def read(p):
@@ -168,6 +169,27 @@ def main():
             vals["window"] = v
     except OSError:
         stale.append("monty:file")
+
+    try:
+        rnd = read("src/bigrand.rs")
+        # gen_bits: `data[last] >>= 32 - rem;`
+        v = grab(rnd, r"data\[last\] >>= (\d+) - rem;", stale, "rand:randShift")
+        if v is not None:
+            vals["randShift"] = v
+        # the 64-bit variant of gen_biguint is the second item of cfg_digit!( … )
+        i0 = rnd.find("RandBigInt for R")
+        i = rnd.find("fn gen_biguint(&mut self", i0)
+        i2 = rnd.find("fn gen_biguint(&mut self", i + 1)
+        j = rnd.find("fn gen_bigint(&mut self", i0)
+        g64 = rnd[i2:j] if 0 <= i < i2 < j else ""
+        v = grab(g64, r"bit_size\.div_rem\(&(\d+)\)", stale, "rand:randDiv")
+        if v is not None:
+            vals["randDiv"] = v
+        v = grab(g64, r"Integer::div_ceil\(&bit_size, &(\d+)\)", stale, "rand:randNative")
+        if v is not None:
+            vals["randNative"] = v
+    except OSError:
+        stale.append("rand:file")
 
     os.makedirs(GEN, exist_ok=True)
     params = ["/- GENERATED by tools/extract.py from /repo/src on every check run — do not edit. -/",
